@@ -1,6 +1,7 @@
 package world
 
 import (
+	"bytes"
 	"context"
 	"crypto/aes"
 	"crypto/cipher"
@@ -33,6 +34,7 @@ type OpRec struct {
 	MSCalls   int
 	KMSCalls  int
 	Faulted   int // faults fired inside this operation
+	Refused   int // KMS unwraps refused inside this operation because the key is revoked (World.KMSRefusesRevoked)
 	FaultDesc []string
 	Err       error
 	Panic     string
@@ -529,6 +531,20 @@ func (v *kmsView) DecryptKey(_ context.Context, blob []byte) ([]byte, error) {
 	if f == FErrBefore || f == FErrAfter {
 		v.w.leave(c, "err")
 		return nil, fmt.Errorf("kms decrypt: %w", errInjected)
+	}
+	if v.w.KMSRefusesRevoked && !v.w.Faults.Off {
+		// the incident that led to the revocation also disabled the master key version that wraps the
+		// revoked system key: the KMS refuses to unwrap it, persistently; new keys wrap and unwrap fine
+		for created := range v.w.Store.Rows[v.w.SKID()] {
+			if row, _ := v.w.Store.Rows.Get(v.w.SKID(), created); row != nil && row.Revoked && bytes.Equal(row.KeyBytes(), blob) {
+				if c.Op != nil {
+					c.Op.Refused++
+				}
+				v.w.Faults.Fired["kms.refuses-revoked-key"]++
+				v.w.leave(c, "refused")
+				return nil, errors.New("kms decrypt: DisabledException: the master key version is disabled")
+			}
+		}
 	}
 	out, err := v.w.KMS.Unwrap(blob)
 	if err != nil {
